@@ -11,6 +11,8 @@ tie:   (1) trigger configurations x occurrence histories on MemTrigger and SQLit
            compare-and-swap, against Trigger.crun / Trigger.casrun with the generated atomicity facts;
        (3) CronCondition._is_satisfied_by and poll sequences on both stores against Cron.cron_sat / polls
            fed with an independent brute-force 5-field schedule evaluator;
+       (2b) in-memory store, two threads: a reporter traced line by line inside pynenc/trigger/** x a loop
+           iteration of another thread (whole, or paused at sampled lines and finished after the reporter);
        (4) 2-3 runner processes (app objects with their own last-execution caches) polling one SQLite store
            in alternating / random / block order against Cron.mr_polls.
 An oracle written from the property statement is evaluated on the implementation's observations.
@@ -51,7 +53,10 @@ MANIFEST = {
             "finished invocations (orchestrator.set_invocation_result / set_invocation_exception: final status + result / exception "
             "of one invocation), default and small (1-4) configured max_events_batch_size, bursts of more pending occurrences than "
             "the batch size (and 130 with the default configuration) including occurrences stuck in unsatisfied AND triggers; "
-            "all single pre-emption points of two real trigger_loop_iteration calls; cron expression family x settings x poll "
+            "all single pre-emption points of two real trigger_loop_iteration calls; on the in-memory store every source line of a "
+            "reporter thread (event / status report) x a loop iteration of a second thread run whole or paused at sampled lines "
+            "(each occurrence launched exactly once, nothing left pending; generated fact: the pending dict is never re-bound, "
+            "theorem concurrent_record_survives_clear_mem, refuted for a re-binding clear); cron expression family x settings x poll "
             "sequences against a brute-force schedule evaluator, on one trigger object per store and on 2-3 runner objects with "
             "separate caches sharing one SQLite store.",
     "note": "Trusted: Coq kernel; AST translator (fail-closed); SHA-256 run ids modelled as (trigger, set of valid-condition keys) "
@@ -69,7 +74,7 @@ BOOL_FACTS = ["claim_guards_launch", "clear_after_launch", "per_occurrence", "or
               "mem_cas_rejects_none", "sqlite_cas_rejects_none", "exc_ctx_has_invocation", "status_ctx_inv_and_status",
               "cron_window_inclusive", "cron_min_interval_strict", "cron_first_poll_checked", "cron_storage_read_always",
               "mem_source_filter_exact", "sqlite_source_filter_exact", "mem_pending_read_complete",
-              "sqlite_pending_read_complete"]
+              "sqlite_pending_read_complete", "mem_pending_in_place"]
 KINDS = ["event", "status", "result", "exception", "cron"]
 STATUSES = ["RUNNING", "RETRY", "SUCCESS", "FAILED"]      # what the status conditions watch; o_aux of a status occurrence
 _EXC_CACHE: dict = {}
@@ -833,6 +838,188 @@ def mem_two_loops(scratch: str, trigs, setup, k: int, mode: str = "loop"):
     return list(a.launches), {"points": inj.count, "fired": inj.fired, "where": inj.where, "raised": raised}
 
 
+# ------------------------------------------------------------------ a reporter thread against a loop iteration (in-memory)
+TRACED = "/pynenc/trigger/"
+
+
+def mem_reporter_vs_loop(scratch: str, trigs, setup, occ2: dict, i: int, j: int | None):
+    """Two threads of one process on the in-memory store.  The reporter (main thread, traced line by line inside
+    pynenc/trigger/**) reports occurrence `occ2`; before its i-th line a trigger_loop_iteration starts in a second thread:
+    j None  -> it runs to completion while the reporter is paused;
+    j >= 0  -> it runs up to its j-th traced line (the first one at or after j where it holds no store lock), pauses there,
+               the reporter finishes, then the iteration finishes.
+    i = -1: no pre-emption (reporter, then the iteration).  A final iteration runs afterwards, so that everything
+    still pending is launched.  Returns (launches, info)."""
+    a = TrigWorld("mem", scratch, trigs)
+    setup(a)
+    trg = a.trg
+    locks = [trg._cron_lock, trg._claim_lock, trg._trigger_run_lock]
+    skip = {"execute_task", "rec"}
+    info = {"rep_points": 0, "loop_points": 0, "fired": None, "where": None, "loop_where": None, "raised": None,
+            "loop_raised": None}
+    paused, resume, finished = threading.Event(), threading.Event(), threading.Event()
+    box = {"thread": None}
+
+    def loop_body():
+        cnt = [0]
+
+        def ltracer(frame, event, arg):
+            co = frame.f_code
+            if TRACED not in co.co_filename or co.co_name in skip:
+                return None
+            if event == "line":
+                k = cnt[0]
+                cnt[0] += 1
+                if j is not None and k >= j and not paused.is_set():
+                    free = []
+                    ok = True
+                    for lk in locks:
+                        if lk.acquire(blocking=False):
+                            free.append(lk)
+                        else:
+                            ok = False
+                    for lk in free:
+                        lk.release()
+                    if ok:
+                        info["loop_where"] = f"{co.co_filename.rsplit('/', 1)[1]}:{co.co_name}:{frame.f_lineno}"
+                        paused.set()
+                        resume.wait()
+            return ltracer
+        sys.settrace(ltracer)
+        try:
+            trg.trigger_loop_iteration()
+        except Exception as ex:  # noqa: BLE001 - an iteration that dies is an observation
+            info["loop_raised"] = f"{type(ex).__name__}: {ex}"[:120]
+        finally:
+            sys.settrace(None)
+            info["loop_points"] = cnt[0]
+            finished.set()
+            paused.set()
+
+    def start_loop():
+        th = threading.Thread(target=loop_body)
+        box["thread"] = th
+        th.start()
+        if j is None:
+            th.join()
+        else:
+            paused.wait()          # paused at its j-th line, or already finished
+
+    def holds_lock():
+        res = {}
+
+        def probe():
+            got = [lk for lk in locks if lk.acquire(blocking=False)]
+            res["ok"] = len(got) == len(locks)
+            for lk in got:
+                lk.release()
+        t = threading.Thread(target=probe)
+        t.start()
+        t.join()
+        return not res["ok"]
+
+    cnt = [0]
+
+    def rtracer(frame, event, arg):
+        co = frame.f_code
+        if TRACED not in co.co_filename or co.co_name in skip:
+            return None
+        if event == "line":
+            k = cnt[0]
+            cnt[0] += 1
+            if k == i and info["fired"] is None:
+                info["where"] = f"{co.co_filename.rsplit('/', 1)[1]}:{co.co_name}:{frame.f_lineno}"
+                if holds_lock():
+                    info["fired"] = "excluded"
+                else:
+                    info["fired"] = "ran"
+                    start_loop()
+        return rtracer
+    sys.settrace(rtracer)
+    try:
+        a.occurrence(occ2)
+    except Exception as ex:  # noqa: BLE001 - recorded
+        info["raised"] = f"{type(ex).__name__}: {ex}"[:120]
+    finally:
+        sys.settrace(None)
+    info["rep_points"] = cnt[0]
+    if box["thread"] is None:
+        j = None
+        start_loop()
+    else:
+        resume.set()
+        box["thread"].join()
+    pend_mid = a.pending()
+    trg.trigger_loop_iteration()
+    a.flush()
+    info["pending_before_final_iteration"] = pend_mid
+    info["pending_end"] = a.pending()
+    return list(a.launches), info
+
+
+def run_reporter_vs_loop(ctx: Ctx, scratch: str, facts: dict):
+    """every line of the reporter x (the whole iteration | sampled lines of the iteration); oracle: each of the two
+    occurrences is launched exactly once (the second possibly by the following iteration), nothing stays pending"""
+    scen = {
+        "event": ([{"conds": [0], "logic": "or", "prov": [0]}],
+                  {"cid": 0, "src": 1, "aux": 0, "n": 1}, {"cid": 0, "src": 2, "aux": 0, "n": 2}),
+        "status": ([{"conds": [1], "logic": None, "prov": [1]}, {"conds": [0, 5], "logic": "and", "prov": [0]}],
+                   {"cid": 1, "src": 1, "aux": 0, "n": 1}, {"cid": 1, "src": 2, "aux": 1, "n": 2}),
+    }
+    summary = {}
+    n_runs = 0
+    for name, (tr, o1, o2) in scen.items():
+        def setup(w, _o1=o1, _o2=o2):
+            CLOCK.t, CLOCK.tick = T0, timedelta(0)
+            if _o2["cid"] % 5 != 0:
+                w.invocation(_o2["cid"] // 5, _o2["src"])
+            w.occurrence(_o1)
+        want = sorted(str(payload_of(o)) for o in (o1, o2))
+        launches, info = mem_reporter_vs_loop(scratch, tr, setup, o2, -1, None)
+        n_runs += 1
+        rp_n = info["rep_points"]
+        _, info2 = mem_reporter_vs_loop(scratch, tr, setup, o2, 0, 10**9)
+        lp_n = info2["loop_points"]
+        n_runs += 1
+        step_j = 5 if ctx.thorough else 41
+        js = [None] + list(range(0, lp_n, step_j))
+        bad, excluded, raised = [], 0, 0
+        for i in [-1] + list(range(rp_n)):
+            for j in (js if i >= 0 else [None]):
+                launches, info = mem_reporter_vs_loop(scratch, tr, setup, o2, i, j)
+                n_runs += 1
+                if info["fired"] == "excluded":
+                    excluded += 1
+                if info["loop_raised"] or info["raised"]:
+                    raised += 1
+                have = sorted(str(a.get("x")) for _, a in launches)
+                if have != want or info["pending_end"] != 0:
+                    bad.append((i, j, info, have))
+                if info["fired"] == "excluded":
+                    break
+        summary[name] = {"reporter_points": rp_n, "iteration_points": lp_n, "iteration_pause_points_used": len(js) - 1,
+                         "excluded_by_lock": excluded, "runs_with_an_exception": raised, "wrong": len(bad)}
+        if bad:
+            i, j, info, have = bad[0]
+            lost = len(have) < len(want)
+            key = "mem-report-vs-loop:" + ("lost" if lost else "extra" if len(have) > len(want) else "wrong")
+            ctx.violation(key,
+                          f"mem, two threads: a reporter ({name} occurrence) pre-empted at {info['where']} (its line {i}) while a "
+                          f"trigger loop iteration of another thread " + ("runs to completion" if j is None else
+                          f"runs up to {info['loop_where']} (its line {j}) and finishes after the reporter")
+                          + f": launches {have} for occurrences {want}, {info['pending_end']} pending at the end"
+                          + (f", iteration raised {info['loop_raised']}" if info["loop_raised"] else "")
+                          + f" ({len(bad)} of the explored schedules deviate)",
+                          {"kind": "report_vs_loop", "scenario": name, "i": i, "j": j, "expected": want, "observed": have})
+            if facts.get("mem_pending_in_place", True) and lost:
+                ctx.violation("mem-report-vs-loop:model-mismatch",
+                              "mem: the generated fact says the pending store is only mutated in place, yet a concurrently recorded "
+                              f"occurrence was lost at {info['where']}",
+                              {"kind": "report_vs_loop", "scenario": name, "i": i, "j": j, "expected": want, "observed": have})
+    ctx.count(n_runs, sum(v["reporter_points"] * (v["iteration_pause_points_used"] + 1) for v in summary.values()))
+    ctx.notes["reporter_vs_loop"] = summary
+
+
 def run_two_loops(ctx: Ctx, scratch: str, facts: dict):
     """claim: one pending event for an OR trigger (+ a second trigger on the same condition); both loops must launch
     each (trigger, occurrence) once in total.  Cron compare-and-swap: one scheduled minute, both loops poll inside its
@@ -1280,6 +1467,8 @@ def main(ctx: Ctx) -> int:
         ctx.log("targeted witnesses done")
         run_two_loops(ctx, scratch, facts)
         ctx.log("two-loop interleavings done")
+        run_reporter_vs_loop(ctx, scratch, facts)
+        ctx.log("reporter thread x loop iteration done")
         run_cron(ctx, scratch)
         ctx.log("cron done")
         run_cron_runners(ctx, scratch)
@@ -1306,7 +1495,8 @@ def main(ctx: Ctx) -> int:
              "providers) x rounds of occurrences (direct reports or whole finished invocations) + loop iterations, classes clean / "
              "multi-pending / burst (more pending than the configured batch size; 130 with the default), every other case with "
              "max_events_batch_size 1-3, on both stores; targeted witnesses "
-             "of the known classes; two loops: every single pre-emption point for 4 scenarios x 2 stores; cron: seeded expressions x 10 "
+             "of the known classes; two loops: every single pre-emption point for 4 scenarios x 2 stores; reporter thread x loop "
+             "iteration (in-memory): every reporter line x (whole iteration + every 41st / 5th iteration line) for 2 scenarios; cron: seeded expressions x 10 "
              "settings x poll sequences (regular/jitter/burst/gaps), each poll one evaluation; cron with 2-3 runners on one SQLite "
              "store: seeded expressions x 5 settings x poll orders (alternate/random/blocks/rotate); distinct_nontrivial = distinct "
              "(configuration, history, batch size) triples + pre-emption points + distinct (expression, settings) pairs + runner cases")
@@ -1347,6 +1537,21 @@ def replay(ctx: Ctx, path: str) -> int:
             else:
                 launches, info = runner(scratch, trigs if rp["scenario"] == "claim" else cron_trigs, setup, rp["k"])
             print("loop B run at", info, "-> launches", launches, "expected", rp["expected_launches"])
+        elif rp["kind"] == "report_vs_loop":
+            scen = {"event": ([{"conds": [0], "logic": "or", "prov": [0]}],
+                              {"cid": 0, "src": 1, "aux": 0, "n": 1}, {"cid": 0, "src": 2, "aux": 0, "n": 2}),
+                    "status": ([{"conds": [1], "logic": None, "prov": [1]}, {"conds": [0, 5], "logic": "and", "prov": [0]}],
+                               {"cid": 1, "src": 1, "aux": 0, "n": 1}, {"cid": 1, "src": 2, "aux": 1, "n": 2})}
+            tr, o1, o2 = scen[rp["scenario"]]
+
+            def setup(w):
+                CLOCK.t, CLOCK.tick = T0, timedelta(0)
+                if o2["cid"] % 5 != 0:
+                    w.invocation(o2["cid"] // 5, o2["src"])
+                w.occurrence(o1)
+            launches, info = mem_reporter_vs_loop(scratch, tr, setup, o2, rp["i"], rp["j"])
+            print("reporter paused at", info["where"], "iteration paused at", info["loop_where"], "->", info)
+            print("launches", launches, "expected payloads", rp["expected"])
         elif rp["kind"] == "cron_runners":
             polls = [(r, datetime.fromisoformat(t)) for r, t in rp["polls"]]
             last0 = datetime.fromisoformat(rp["last"]) if rp["last"] else None
